@@ -29,7 +29,12 @@ def work(item):
         return work_hist(item)
     _, opi, mask = item
     ops = H.operations()
-    label, real, model_fn, _ = ops[opi]
+    may_fail = False
+    if opi >= len(ops):
+        label, real = H.failing_calls()[opi - len(ops)]
+        may_fail = True
+    else:
+        label, real, model_fn, _ = ops[opi]
     out = {"item": f"{label}/mask={mask:011b}", "paths": 0, "violations": [], "inconclusive": [], "samples": []}
 
     def fn():
@@ -37,8 +42,13 @@ def work(item):
         bits = H.symbolic_bits()
         net, m = H.build_pre(U, bits)
         H.touch(net, mask)
-        pre_bad = H.lookup_mismatches(net) if False else []
-        real(net, U)
+        if may_fail:
+            try:
+                real(net, U)
+            except Exception:  # noqa  (the call is expected to fail half-way; what matters is the state it leaves)
+                pass
+        else:
+            real(net, U)
         return bits, H.lookup_mismatches(net)
 
     for pr in dfork.run_all(fn):
@@ -96,10 +106,14 @@ def work_hist(item):
 def replay(rec):
     U = H.Universe()
     ops = {o[0]: o for o in H.operations()}
+    ops.update({l: (l, f) for l, f in H.failing_calls()})
     if rec["kind"] == "step":
         net, m = H.build_pre(U, rec["bits"])
         H.touch(net, rec["mask"])
-        ops[rec["op"]][1](net, U)
+        try:
+            ops[rec["op"]][1](net, U)
+        except Exception as e:  # noqa
+            print("the call raised", repr(e))
         bad = H.lookup_mismatches(net)
         print(f"pre-state {rec['bits']}; cached: {[n for k, n in enumerate(H.CACHED) if rec['mask'] >> k & 1]}; call {rec['op']}; lookups differing from the graph: {bad}")
         return 1 if bad else 0
@@ -122,7 +136,7 @@ def main():
     masks = [0x7FF, 0] + [1 << k for k in range(11)] + [0x7FF ^ 1]
     if args.thorough:
         masks += [(1 << a) | (1 << b) for a, b in itertools.combinations(range(11), 2)] + [0x7FF ^ (1 << k) for k in range(1, 11)]
-    items = [("step", i, m) for i in range(len(ops)) for m in masks]
+    items = [("step", i, m) for i in range(len(ops) + len(H.failing_calls())) for m in masks]
     hl = 4 if args.thorough else 3
     items += [("hist", f, hl, args.seed) for f in HIST_OPS]
     results = harness.pmap(work, items, args.serial, chunksize=4)
@@ -144,7 +158,7 @@ def main():
         "evaluations": paths + hist, "distinct_nontrivial": paths + hist,
         "rule": "state = (pre-state bits decided by the fork executor, mask of cached lookups, mutating call): one real execution each, 14 lookups compared with the recomputation "
                 "from the graph afterwards; traces = real histories from the empty network (length %d over %d calls) with reads after every call" % (hl, len(HIST_OPS)),
-        "mutating_calls": len(ops), "masks": len(masks), "pre_states_per_call": 64, "history_length": hl,
+        "mutating_calls": len(ops), "failing_calls": len(H.failing_calls()), "masks": len(masks), "pre_states_per_call": 64, "history_length": hl,
         "functions_encoded": ["Network.add_node(s)/add_link(s)/add_origin/add_destination/add_path", "util.funcs.invalidate_cache", "all cached_property lookups of Network", "views wrappers"],
         "samples": samples[:8] or [{"note": "none"}],
         "exhaustive": not viol_ and not inc,
